@@ -39,6 +39,7 @@ type runner struct {
 	// how each known series was asked for (for asking again), and a counter for brand-new tag sets
 	seriesArgs map[nameKey]seriesArg
 	freshTag   int
+	lim        *models.Limits // the limits of this case's database (re-registered by limits())
 	// big-bucket region: (tag key, first name, count) -> first id
 	ranges map[[3]int]uint32
 }
@@ -58,7 +59,7 @@ func newRunner(c *core.Ctx, dbName string, nShards, maxSeries int) (*runner, err
 	if err != nil {
 		return nil, err
 	}
-	r := &runner{c: c, s: s, o: newOracle(c), tagsets: map[string]int{}, seriesSeen: map[nameKey][3]int{}, seriesArgs: map[nameKey]seriesArg{}}
+	r := &runner{c: c, s: s, o: newOracle(c), lim: lim, tagsets: map[string]int{}, seriesSeen: map[nameKey][3]int{}, seriesArgs: map[nameKey]seriesArg{}}
 	c.Op(fmt.Sprintf("reset %d %d", nShards, maxSeries), "ok")
 	return r, nil
 }
@@ -140,8 +141,36 @@ func (r *runner) metric(ns, name int) (uint32, bool) {
 		if id2, ok2 := r.getMetric(ns, name); !ok2 || id2 != id {
 			r.c.Fail(r.o.tag+"lookup-after-create-metric", fmt.Sprintf("%s returned id %d, GetMetricID afterwards: found=%v id=%d", op, id, ok2, id2))
 		}
+	} else {
+		r.c.Branch("gen-metric-" + strings.ReplaceAll(out, " ", "-"))
+		if out == "err too-many-namespaces" || out == "err too-many-metrics" {
+			// a refused name got no id: the lookup-only API must not find one either — unless the name had
+			// an id before (never: createFn only runs for a name that is in no table)
+			k := nameKey{"metric", strconv.Itoa(ns), strconv.Itoa(name)}
+			if prev, had := r.o.live[k]; had {
+				r.c.Fail(r.o.tag+"stable-metric", fmt.Sprintf("%s refused (%s) although the name has id %d", op, out, prev))
+			}
+			if id2, ok2 := r.getMetric(ns, name); ok2 {
+				if _, had := r.o.live[k]; !had {
+					r.c.Fail(r.o.tag+"refused-metric-has-id", fmt.Sprintf("%s was refused (%s), GetMetricID afterwards answers id %d", op, out, id2))
+				}
+			}
+		}
 	}
 	return id, ok
+}
+
+// limits: max-namespaces / max-metrics of the database (0 = off, the default). genNSID / genMetricID — the
+// createFn of the namespace and metric dictionaries — read them on every call.
+func (r *runner) limits(maxNS, maxMetrics int) {
+	r.guard(fmt.Sprintf("limits %d %d", maxNS, maxMetrics), func() string {
+		l := *r.lim
+		l.MaxNamespaces, l.MaxMetrics = uint32(maxNS), uint32(maxMetrics)
+		r.lim = &l
+		models.SetDatabaseLimits(r.s.dbName, r.lim)
+		return "ok"
+	})
+	r.c.Branch("limits")
 }
 
 func (r *runner) getMetric(ns, name int) (uint32, bool) {
@@ -639,6 +668,8 @@ func (area) Run(c *core.Ctx) error {
 				err = bufReuseRegion(c, rng, db, false)
 			case 22, 23, 24, 25:
 				err = witnessIndexFlushFault(c, db, i-22)
+			case 26:
+				err = witnessNameLimits(c, db)
 			default:
 				if rng.Intn(12) == 0 {
 					err = bufReuseRegion(c, rng, db, false)
@@ -696,6 +727,12 @@ func randomCase(c *core.Ctx, rng *rand.Rand, db string) error {
 	const nNS, nMetric, nKeys, nVals, nFields = 3, 5, 5, 6, 5
 	// flushes become more likely in "flushy" cases so that several generations of files exist
 	flushy := 1 + rng.Intn(3)
+	// region: namespace / metric-name limits on (createFn of the two dictionaries refuses new names)
+	limited := rng.Intn(8) == 0
+	if limited {
+		r.limits(1+rng.Intn(2), 1+rng.Intn(4))
+		c.Branch("region-name-limits")
+	}
 	for st := 0; st < steps && r.err == nil; st++ {
 		k := rng.Intn(100)
 		switch {
